@@ -19,10 +19,29 @@ def attrGet (attrs : AttrList) (name : Str) : Str :=
   | some a => a.2
   | none => []
 
+/-- the text after the first `}` of a string, if it holds one (`s.split('}', 1)[1]`) -/
+def afterBrace : Str → Option Str
+  | [] => none
+  | c :: cs => if c = '}' then some cs else afterBrace cs
+
+/-- `QName.localname` as `genshi.core.QName.__new__` computes it from the string value of the
+    name: leading `{` stripped, then the part after the first `}` (the whole when there is none).
+    A Python `QName` *is* its string value (`QName.text` here) — namespace and local name are
+    functions of it.  For the names `⟨ns, loc⟩` with a non-empty `ns` free of braces this is
+    `loc`; for `⟨[], loc⟩` with a plain `loc` it is `loc`; and the one kind of Python name the
+    pair form has no slot for — the namespace is the EMPTY string, as in `QName('}color')` which
+    html.parser yields for the attribute `}color`: string value `{}color`, namespace `''`, local
+    name `color` — travels as `⟨[], "{}color"⟩`: the same string value (so every comparison with
+    the safe sets, with `waiting_for` and in `attrs.get` agrees) and, through this function, the
+    same local name. -/
+def localname (q : QName) : Str :=
+  let t := q.text.dropWhile (· == '{')
+  (afterBrace t).getD t
+
 /-- `HTMLSanitizer.is_safe_elem(tag, attrs)` -/
 def isSafeElem (cfg : Cfg) (tag : QName) (attrs : AttrList) : Bool :=
   cfg.safeTags.contains tag.text &&
-    !(tag.loc == inputWord && pyLower (attrGet attrs typeWord) == passwordWord)
+    !(localname tag == inputWord && pyLower (attrGet attrs typeWord) == passwordWord)
 
 def stripRefsFix : Nat → Str → Except Err Str
   | 0, s => .ok s
@@ -56,6 +75,14 @@ def sanAttrs (cfg : Cfg) : AttrList → Except Err AttrList
     let rest ← sanAttrs cfg as
     pure (match r with | some x => x :: rest | none => rest)
 
+def optHasGt : Option Str → Bool
+  | some x => List.contains x '>'
+  | none => false
+
+/-- a `>` in the name, the public or the system identifier of a DOCTYPE event: an HTML parser ends
+    the declaration there, inside quotes or not, and reads what follows as markup -/
+def dtHasGt (n : Str) (p s : Option Str) : Bool := List.contains n '>' || optHasGt p || optHasGt s
+
 /-- the filter's local state: `waiting_for`, `depth` -/
 structure St where
   waiting : Option QName
@@ -86,6 +113,14 @@ def step (cfg : Cfg) (st : St) : Event → Except Err (St × Stream)
     -- `kind is PI and ('>' in data[0] or '>' in data[1])`: dropped
     if List.contains target '>' || List.contains data '>' then pure (st, [])
     else pure (st, if st.waiting.isNone then [.pi target data] else [])
+  | .doctype n p s =>
+    -- `kind is DOCTYPE and any(part and '>' in part for part in data)`: dropped
+    if dtHasGt n p s then pure (st, [])
+    else pure (st, if st.waiting.isNone then [.doctype n p s] else [])
+  -- `kind is START_CDATA or kind is END_CDATA`: the markers are not passed on (the text between
+  -- them is then escaped by every serializer like any other text)
+  | .startCdata => pure (st, [])
+  | .endCdata => pure (st, [])
   | e => pure (st, if st.waiting.isNone then [e] else [])
 
 def sanitizeFrom (cfg : Cfg) : St → Stream → Except Err Stream
